@@ -89,10 +89,11 @@ class Execution:
 
     async def _send(self, key: str, val: str) -> None:
         node, (c, t) = (AWAKE, (0, 0)) if key.startswith("d") else (NODE, KEYMAP[key])
+        ack = 1 if val.endswith("+ack") else 0
         sid = next(self.ids)
-        self.events.append({"e": "send_start", "id": sid, "n": node, "c": c, "t": t, "v": val, "ack": 0, "cmd": 1})
-        await self.gw.send(Message(node, c, 1, 0, t, val))
-        self.events.append({"e": "send_end", "id": sid, "n": node, "c": c, "t": t, "v": val, "ack": 0, "cmd": 1})
+        self.events.append({"e": "send_start", "id": sid, "n": node, "c": c, "t": t, "v": val, "ack": ack, "cmd": 1})
+        await self.gw.send(Message(node, c, 1, ack, t, val))
+        self.events.append({"e": "send_end", "id": sid, "n": node, "c": c, "t": t, "v": val, "ack": ack, "cmd": 1})
 
     async def _sender(self, name: str) -> None:
         for key, val in self.plan[name]:
@@ -356,6 +357,8 @@ def check(prop: str) -> int:
                 for proto in protos[:1]:
                     ejobs.append((proto, init, {"s1": [(init[0], "s1-1"), (init[0], "s1-2")], "s2": [(init[0], "s2-1")]}, 4000))
                     ejobs.append((proto, init, {"s1": [(init[0], "s1-1")], "s2": [(init[0], "same")], "s3": [(init[0], "same")]}, 4000))
+                    # the same key sent with alternating ack flags
+                    ejobs.append((proto, init, {"s1": [(init[0], "s1-1+ack"), (init[0], "s1-2")], "s2": [(init[0], "s2-1+ack")]}, 4000))
                     # one sender addresses the awake node: its write suspends like the listener's
                     ejobs.append((proto, init, {"s1": [(init[0], "s1-1")], "d1": [("d1", "d1-1")]}, 4000))
                     # a sender re-sends exactly the value the node last reported
